@@ -435,6 +435,27 @@ BOUNDED_EXCEPTIONS: Dict[Tuple[str, str, str], str] = {
 }
 
 
+def _removes_gene_created_here(ctx, r, bound: Dict[str, object]) -> bool:
+    """remove_genes(..., remove_reactions=False) registered in a branch that constructs a Gene and appends it to a list."""
+    if not any(t.name == "remove_genes" for t in r.target_fn) or bound.get("remove_reactions") is not False:
+        return False
+    st = enclosing_stmt(r.node)
+    for a in ancestors(st):
+        if not isinstance(a, ast.If):
+            continue
+        body = a.body if any(st is x or any(st is y for y in ast.walk(x)) for x in a.body) else a.orelse
+        made = set()
+        for x in body:
+            for n in ast.walk(x):
+                if isinstance(n, ast.Assign) and isinstance(n.value, ast.Call) and norm(n.value.func).split(".")[-1] == "Gene" and isinstance(n.targets[0], ast.Name):
+                    made.add(n.targets[0].id)
+        for x in body:
+            for n in ast.walk(x):
+                if isinstance(n, ast.Call) and isinstance(n.func, ast.Attribute) and n.func.attr in ("append", "add") and n.args and isinstance(n.args[0], ast.Name) and n.args[0].id in made:
+                    return True
+    return False
+
+
 def check_bounded(ctx, regs: List[Registration]) -> None:
     """The cells an undo entry may write (under its bound arguments) are cells the registering operation writes itself."""
     reach = Reach(ctx)
@@ -457,11 +478,32 @@ def check_bounded(ctx, regs: List[Registration]) -> None:
                 if isinstance(a, ast.Constant):
                     b2[p] = a.value
             undo |= reach.cells(t, b2)
-        fwd_ops = reach.cells(r.fn, {})
+        fwd_ops = set(reach.cells(r.fn, {}))
+        # a private helper registers on behalf of the operation(s) it was factored out of: what "the operation writes"
+        # is then what those callers write (followed up to the first function that is not a private helper)
+        op_fns, todo, seen_fns = [r.fn], [r.fn], {id(r.fn)}
+        while todo:
+            f_ = todo.pop()
+            if not (f_.name.startswith("_") and not f_.name.startswith("__")):
+                continue
+            for g_ in ctx.prog.all_funcs():
+                if id(g_) in seen_fns:
+                    continue
+                if any(e_.kind == "CALL" and e_.chain and e_.chain[0][0] is f_ for e_ in ctx.eff.own_effects(g_)):
+                    seen_fns.add(id(g_))
+                    op_fns.append(g_)
+                    todo.append(g_)
+        for g_ in op_fns[1:]:
+            fwd_ops |= set(reach.cells(g_, {}))
         forward = {c for c, _ in fwd_ops}
         undo_cells = {c for c, _ in undo if c13_is_model_cell(c)}
         extra = sorted(c for c in undo_cells if c not in forward and c not in MIRROR_CELLS)
         extra = [c for c in extra if (key_fn, construct, c) not in BOUNDED_EXCEPTIONS]
+        if extra and _removes_gene_created_here(ctx, r, b):
+            # the entry takes a gene out again that this very branch created and listed: stripping it from rules and
+            # groups (it can only have joined them inside the block) is part of removing it - the reasons given for the
+            # two frozen entries above, recognised by what the branch does rather than by how it is spelled
+            extra = [c for c in extra if c not in ("GPR.body", "Group._members", "Model.genes", "Reaction._genes", "Species._reaction", "Species._model")]
         if ("obj.expr", "replace") in undo and ("obj.expr", "replace") not in fwd_ops and not extra:
             ctx.bad("C03.bounded", r.fn, enclosing_stmt(r.node), f"with the arguments bound here the undo entry installs a new objective although {r.fn.short} only edits coefficients of the objective in place: on exit every other term of the objective (and any objective installed later in the block) is wiped (arguments: {sorted(b.items())})")
         elif extra:
